@@ -16,7 +16,9 @@ Definition subtype_refl : Prop :=
 
 (* REFUTED by the faithful model inside the language (Properties.subtype_trans_statement_refuted, single-member
    enum vs its literal); PROVED on fragment F1 (Properties.subtype_trans_partial) and on fragment F2 (generic instances with
-   variance, promotions, bool/enum literals, unions) outside the refuted family X2 (Properties.subtype_trans_F2) *)
+   variance, promotions, bool/enum literals, unions) outside the refuted family X2 (Properties.subtype_trans_F2);
+   final round: Properties.subtype_trans_guarded states it for ALL types and tables under the single decidable guard
+   Model.trans_guard, which the harness evaluates (extracted) on every triple of the law search *)
 Definition subtype_trans : Prop :=
   forall ct, wf_ct ct = true -> forall a b c, any_free a = true -> any_free b = true -> any_free c = true ->
   forall n1 n2 n3, is_subtype ct n1 a b = Some true -> is_subtype ct n2 b c = Some true ->
